@@ -572,6 +572,10 @@ pub fn run_book_ledger(
     let rendered = ledger.render();
     let files = vec![(ops::ROOT.to_string(), rendered.text.clone())];
     rec.op("report::process", &rendered.text);
+    // generated magnitudes keep every sum and every written price product inside the decimal
+    // range; only an implied exchange (outcome `may`) makes the code derive a rate and
+    // converted amounts of its own, which for huge magnitudes can leave the range legitimately.
+    rec.excuse_decimal_overflow = outcomes.iter().any(|(_, o)| matches!(o, Outcome::May(_) | Outcome::Unspecified(_)));
     okane_core::verif::set_enabled(true);
     let _ = okane_core::verif::drain();
     let code = guarded(rec, || run_code(&files, ops::ROOT));
